@@ -98,7 +98,9 @@ class Scratch:
         'asan': ['-O1', '-g', '-fsanitize=address,undefined', '-fno-sanitize-recover=all', '-fno-omit-frame-pointer'],
         'plain': ['-O1', '-g'],
         'cov': ['-O0', '-g', '--coverage'],
+        'fuzz': ['-O1', '-g', '-fsanitize=fuzzer-no-link,address,undefined', '-fno-sanitize-recover=all', '-fno-omit-frame-pointer'],
     }
+    CC = {'fuzz': 'clang'}
 
     def cflags(self, flavour):
         return self.FLAVOURS[flavour] + ['-D' + GUARD, '-w', '-I' + self.src, '-I' + os.path.join(self.src, 'libks'),
@@ -113,7 +115,7 @@ class Scratch:
         jobs = {}
         for s in SRCS + ['mdsort.c']:
             o = os.path.join(odir, s.replace('/', '_')[:-2] + '.o')
-            jobs[s] = (o, ['cc'] + self.cflags(flavour) + ['-c', os.path.join(self.src, s), '-o', o])
+            jobs[s] = (o, [self.CC.get(flavour, 'cc')] + self.cflags(flavour) + ['-c', os.path.join(self.src, s), '-o', o])
         errs = []
         with cf.ThreadPoolExecutor(NCPU) as ex:
             futs = {ex.submit(subprocess.run, cmd, capture_output=True, text=True): s for s, (o, cmd) in jobs.items()}
@@ -149,6 +151,20 @@ class Scratch:
         r = subprocess.run(cmd, capture_output=True, text=True)
         if r.returncode != 0:
             raise CheckError('mdsort does not link: ' + r.stderr[-3000:])
+        return out
+
+    def fuzz_target(self, name):
+        """Build harness/fuzz/<name>.c as a libFuzzer binary (clang, ASan+UBSan) against the repo objects."""
+        out = os.path.join(self.dir, name + '-fuzz')
+        if os.path.exists(out):
+            return out
+        objs = self.objs('fuzz')
+        link = [o for s, o in objs.items() if s != 'mdsort.c']
+        flags = [f.replace('fuzzer-no-link', 'fuzzer') for f in self.cflags('fuzz')]
+        cmd = ['clang'] + flags + [os.path.join(HARNESS, 'fuzz', name + '.c')] + link + ['-o', out]
+        r = subprocess.run(cmd, capture_output=True, text=True)
+        if r.returncode != 0:
+            raise CheckError('fuzz target %s does not build: %s' % (name, r.stderr[-3000:]))
         return out
 
     def build_c(self, srcs, out, flags=()):
